@@ -56,6 +56,8 @@ def calls(node, name=None, local=True):
     """Call nodes inside node whose method/function name is `name` (or all)."""
     out = []
     it = walk_local_ordered(node) if local else ast.walk(node)
+    if local and isinstance(node, ast.Call):
+        it = [node] + list(it)
     for n in it:
         if isinstance(n, ast.Call) and (name is None or method_name(n) == name or
                                          (isinstance(name, (set, tuple, list, frozenset)) and method_name(n) in name)):
